@@ -11,8 +11,10 @@ LEVEL_NOTE = ("Trusted: Lean 4.33 kernel; axioms per theorem are audited on ever
 
 CHECKS = {
     "C01": ("conservation of messages per subscription actor by induction over all turn sequences (List.Perm invariant), drain and "
-            "requeue theorems, system-level fan-out theorem (one post turn per attached subscription, others untouched); tied by seq "
-            "correspondence, turn-trace validation, slice-P1 refinement on name races + loss/foreign oracle", "5-C01"),
+            "requeue theorems, system-level fan-out theorem (one post turn per attached subscription, others untouched), slice P6 "
+            "(fan-out protocol under ALL interleavings, any capacity: an answered Publish has reached every subscription of its "
+            "fan-out set, nothing foreign, FIFO mailboxes, progress of the publish turn); tied by seq correspondence, turn-trace "
+            "validation, refinement of the hook log against slices P1 and P6 + loss/foreign oracle", "5-C01"),
     "C02": ("tracker consistency invariant and ack-finality by induction over all turn sequences; tied by tracker/seq correspondence "
             "+ ack-finality oracle", "5-C02"),
     "C03": ("lease persistence/exclusivity and ack-id freshness as inductive invariants over all turn sequences; tied by seq "
@@ -21,10 +23,14 @@ CHECKS = {
             "tied by rounding + seq correspondence at sub-100ms phases + early/late oracle", "5-C04"),
     "C05": ("classification of seconds for all integers, all-or-nothing parsing by induction, replace/nack/ignore theorems on the "
             "tracker; tied by pure + seq correspondence", "5-C05"),
-    "C08": ("id arithmetic (omega) and FIFO queue theorems over all turns; tied by seq correspondence + order oracle", "5-C08"),
+    "C08": ("id arithmetic (omega) and FIFO queue theorems over all turns, first-delivery order over all turn sequences, slice P6 "
+            "(posts reach every subscription in accept order and ids are issued in accept order under ALL interleavings of "
+            "concurrent publishers); tied by seq correspondence (incl. MiB-sized payloads), refinement of the hook log against "
+            "slice P6 + order oracle", "5-C08"),
     "C09": ("payload equality by conservation, id injectivity (omega), base64 round trip by induction; tied by seq correspondence "
             "with binary/attribute payload generators + payload oracle", "5-C09"),
-    "C10": ("handler case analysis: create/get/delete/data-plane status and state theorems for all states and names, global invariant "
+    "C10": ("refinement of the system model to the atomic-map specification (one theorem for all 14 request kinds, lifted to all "
+            "histories), handler case analysis: create/get/delete/data-plane status and state theorems for all states and names, global invariant "
             "over all histories (SysInv), and slice P1 over all interleavings of create/delete of one name (linearization-point theorems); "
             "tied by seq correspondence over a name pool, refinement check of the hook log against slice P1, per-name linearizability "
             "oracle on concurrent histories", "5-C10"),
